@@ -21,6 +21,7 @@ fn prop_by_id(id: &str, thorough: bool) -> Option<Box<dyn Prop>> {
         "C18" => Box::new(props::c08::ServerProp { kind: props::c08::Kind::C18 }),
         "C20" => Box::new(props::c20::Notified),
         "C17" => Box::new(props::c17::Bounded { production: thorough }),
+        "C19" => Box::new(props::c19::EndToEnd { thorough }),
         _ => return None,
     })
 }
@@ -36,7 +37,18 @@ fn main() {
         usage();
     }
     runner::install_panic_hook();
-    let prop = match prop_by_id(&args[0], args[1] != "quick") {
+    // A replay file is re-run with the tier it was recorded in (some properties size their
+    // scenarios by tier, so the same tape would otherwise describe another scenario).
+    let thorough = if args[1] == "--replay" {
+        args.get(2)
+            .and_then(|p| std::fs::read_to_string(p).ok())
+            .and_then(|s| serde_json::from_str::<serde_json::Value>(&s).ok())
+            .map(|v| v["tier"].as_str() == Some("thorough"))
+            .unwrap_or(false)
+    } else {
+        args[1] != "quick"
+    };
+    let prop = match prop_by_id(&args[0], thorough) {
         Some(p) => p,
         None => {
             eprintln!("unknown property {}", args[0]);
@@ -76,6 +88,25 @@ fn main() {
                 i += 1;
             }
             "--no-evidence" => opt.write_evidence = false,
+            "--diff-job" => {
+                // debugging aid: run seeded job N twice with traces and show where they diverge
+                let n: u64 = args[i + 1].parse().expect("job");
+                prop.thread_init();
+                let t = |n| tape::Tape::generate(runner::seed_for(opt.seed, prop.id(), n));
+                let a = runner::run_one(prop.as_ref(), t(n), true, true);
+                let b = runner::run_one(prop.as_ref(), t(n), true, false);
+                println!("scenario: {}", serde_json::to_string(&a.sample).unwrap());
+                let (ta, tb) = (a.trace.unwrap(), b.trace.unwrap());
+                println!("lens {} {} fail {:?} {:?}", ta.len(), tb.len(), a.fail, b.fail);
+                for (k, (x, y)) in ta.iter().zip(tb.iter()).enumerate() {
+                    if x != y {
+                        for l in ta[k.saturating_sub(12)..(k + 4).min(ta.len())].iter() { println!("A {l}"); }
+                        for l in tb[k.saturating_sub(3)..(k + 4).min(tb.len())].iter() { println!("B {l}"); }
+                        break;
+                    }
+                }
+                std::process::exit(0);
+            }
             "--digest" => opt.digest = true,
             _ => usage(),
         }
